@@ -524,3 +524,130 @@ mod test {
     }
 }
 
+
+
+//============ Kani harnesses (verification only) ============================
+//
+// Compiled only by `cargo kani` (which sets `cfg(kani)`); add-only.
+//
+// Discharges the contract of `rpki::resources::addr::Prefix::covers` that
+// the Verus environment of `RouteValidity::new` assumes.
+
+#[cfg(kani)]
+mod kani_verif {
+    use super::*;
+    use std::net::{IpAddr, Ipv4Addr, Ipv6Addr};
+
+    /// The abstract view of a prefix used by the Verus environment: the
+    /// family, the length and the address left-aligned in 128 bits, all
+    /// taken through rpki's public accessors.
+    fn view(p: Prefix) -> (bool, u8, u128) {
+        let bits = match p.addr() {
+            IpAddr::V4(addr) => (u32::from(addr) as u128) << 96,
+            IpAddr::V6(addr) => u128::from(addr),
+        };
+        (p.is_v4(), p.len(), bits)
+    }
+
+    /// `top_bits` of `units/validity/env.rs`: the first `n` bits of `x`.
+    fn top_bits(x: u128, n: u8) -> u128 {
+        if n == 0 { 0 } else if n >= 128 { x } else { x >> (128 - n) }
+    }
+
+    /// `prefix_covers` of `units/validity/env.rs`.
+    fn prefix_covers(a: Prefix, b: Prefix) -> bool {
+        let (a_v4, a_len, a_bits) = view(a);
+        let (b_v4, b_len, b_bits) = view(b);
+        a_v4 == b_v4
+        && a_len <= b_len
+        && top_bits(a_bits, a_len) == top_bits(b_bits, a_len)
+    }
+
+    /// Any prefix that rpki's constructors can produce: any family, any
+    /// 128 (32) address bits, any length the family allows; host bits are
+    /// cleared by the relaxed constructor. The strict constructor yields
+    /// the same value whenever it accepts its input.
+    fn any_prefix() -> Prefix {
+        let v4: bool = kani::any();
+        let len: u8 = kani::any();
+        if v4 {
+            let raw: u32 = kani::any();
+            let addr = Ipv4Addr::from(raw);
+            let res = Prefix::new_v4_relaxed(addr, len);
+            assert!(res.is_ok() == (len <= 32));
+            kani::assume(res.is_ok());
+            let p = res.unwrap();
+            let mask = if len == 0 { 0 } else { u32::MAX << (32 - len) };
+            assert!(view(p) == (true, len, ((raw & mask) as u128) << 96));
+            if let Ok(strict) = Prefix::new_v4(addr, len) {
+                assert!(strict == p && raw & mask == raw);
+            }
+            p
+        }
+        else {
+            let raw: u128 = kani::any();
+            let addr = Ipv6Addr::from(raw);
+            let res = Prefix::new_v6_relaxed(addr, len);
+            assert!(res.is_ok() == (len <= 128));
+            kani::assume(res.is_ok());
+            let p = res.unwrap();
+            let mask = if len == 0 { 0 } else { u128::MAX << (128 - len) };
+            assert!(view(p) == (false, len, raw & mask));
+            if let Ok(strict) = Prefix::new_v6(addr, len) {
+                assert!(strict == p && raw & mask == raw);
+            }
+            p
+        }
+    }
+
+    /// C20: `Prefix::covers` is exactly "same family, `self` not longer
+    /// than `other`, and the first `self.len()` bits agree", for every
+    /// pair of prefixes (all families, lengths and address bits).
+    #[kani::proof]
+    fn prefix_covers_contract() {
+        let a = any_prefix();
+        let b = any_prefix();
+        let r = a.covers(b);
+        assert!(r == prefix_covers(a, b));
+        kani::cover!(r && a.is_v4() && a.len() < b.len());
+        kani::cover!(r && !a.is_v4() && a.len() < b.len());
+        kani::cover!(r && a.len() == 32 && a.is_v4());
+        kani::cover!(r && a.len() == 128);
+        kani::cover!(r && a.len() == 0 && b.len() == 128);
+        kani::cover!(!r && a.is_v4() == b.is_v4() && a.len() <= b.len());
+        kani::cover!(!r && a.is_v4() == b.is_v4() && a.len() > b.len());
+        kani::cover!(!r && a.is_v4() != b.is_v4());
+        kani::cover!(!r && a.len() == 128 && b.len() == 128);
+    }
+
+    /// C20 (environment): `MaxLenPrefix::{prefix, resolved_max_len}` for
+    /// every value either constructor produces: the prefix is the one given,
+    /// the resolved max length is the max length if present and the prefix
+    /// length otherwise, and lies in `prefix.len() ..= family maximum`.
+    #[kani::proof]
+    fn maxlen_prefix_accessors_contract() {
+        use rpki::resources::MaxLenPrefix;
+        let p = any_prefix();
+        let max_len: Option<u8> = kani::any();
+        let fam_max = if p.is_v4() { 32 } else { 128 };
+        let res = MaxLenPrefix::new(p, max_len);
+        let ok = match max_len {
+            None => true,
+            Some(m) => p.len() <= m && m <= fam_max,
+        };
+        assert!(res.is_ok() == ok);
+        if let Ok(mp) = res {
+            assert!(mp.prefix() == p);
+            assert!(mp.resolved_max_len() == max_len.unwrap_or(p.len()));
+            assert!(MaxLenPrefix::saturating_new(p, max_len) == mp);
+        }
+        let sp = MaxLenPrefix::saturating_new(p, max_len);
+        assert!(sp.prefix() == p);
+        assert!(sp.resolved_max_len() >= p.len());
+        assert!(sp.resolved_max_len() <= fam_max);
+        kani::cover!(res.is_ok() && max_len.is_none());
+        kani::cover!(res.is_ok() && max_len.is_some() && max_len != Some(p.len()));
+        kani::cover!(res.is_err() && p.is_v4());
+        kani::cover!(res.is_err() && !p.is_v4());
+    }
+}
